@@ -56,15 +56,16 @@ INPUTS = {
 
 
 class Rec:
-    def __init__(self, fail_at=None):
+    def __init__(self, fail_at=None, persistent=False):
         self.count = 0
         self.fail_at = fail_at
+        self.persistent = persistent      # the device keeps failing from the k-th operation on (e.g. disk full)
         self.handles = []
         self.events = []
 
     def op(self, name):
         self.count += 1
-        if self.fail_at is not None and self.count == self.fail_at:
+        if self.fail_at is not None and (self.count == self.fail_at or (self.persistent and self.count > self.fail_at)):
             self.events.append("FAULT@%s" % name)
             raise OSError("injected fault at I/O operation %d (%s)" % (self.count, name))
 
@@ -113,6 +114,7 @@ class Proxy:
         return self._f.writelines(l)
 
     def flush(self):
+        self._rec.op("flush")
         return self._f.flush()
 
     def close(self):
@@ -193,10 +195,23 @@ def shapes(tmp):
             out.append(("read(str,normal,no-autodetect)/good", call2, None))
     out.append(("read(str)/missing-file", lambda rec: {"las": lasio.read(os.path.join(tmp, "does-not-exist.las"))}, None))
     for kind in ("write", "to_csv"):
-        for variant in ("plain", "wrap", "bad-object"):
+        for variant in ("plain", "wrap", "bad-object", "bad-option", "ragged"):
             def callw(rec, kind=kind, variant=variant):
                 las = build_las()
                 target = os.path.join(tmp, "out-%s-%s.txt" % (kind, variant))
+                if variant == "ragged":
+                    las.curves[1].data = las.curves[1].data[:-1]        # curves of unequal length
+                    if kind == "write":
+                        las.write(target, version=2.0)
+                    else:
+                        las.to_csv(target)
+                    return {"las": las}
+                if variant == "bad-option":
+                    if kind == "write":
+                        las.write(target, version=2.0, fmt="%d %d")       # not enough arguments for format string
+                    else:
+                        las.to_csv(target, delimiter=";;")                # csv.writer rejects the option
+                    return {"las": las}
                 if variant == "bad-object":
                     las.well["NULL"].value = Unprintable()      # input-induced exception while formatting
                     las.curves[1].data[1] = float("nan")
@@ -216,6 +231,14 @@ def shapes(tmp):
                 real_open = getattr(builtins.open, "__wrapped_real__", None)
                 f = Proxy(_REAL_OPEN(target, "w"), rec, "caller")
                 try:
+                    if variant == "ragged":
+                        las.curves[1].data = las.curves[1].data[:-1]
+                    if variant == "bad-option":
+                        if kind == "write":
+                            las.write(f, version=2.0, fmt="%d %d")
+                        else:
+                            las.to_csv(f, delimiter=";;")
+                        return {"las": las}
                     if variant == "bad-object":
                         las.well["NULL"].value = Unprintable()
                         las.curves[1].data[1] = float("nan")
@@ -252,8 +275,8 @@ def open_handles_on(obj):
     return bad
 
 
-def attempt(run, name, call, k):
-    rec = Rec(fail_at=k)
+def attempt(run, name, call, k, persistent=False):
+    rec = Rec(fail_at=k, persistent=persistent)
     rec.caller = None
     exc = None
     holder = None
@@ -263,7 +286,7 @@ def attempt(run, name, call, k):
         except BaseException as e:      # keep the exception object alive while we look
             exc = e
     still_open = [p._label for p in rec.handles if not p.closed]
-    case = {"call": name, "fault_at": k, "exception": type(exc).__name__ if exc else None}
+    case = {"call": name, "fault_at": k, "persistent": persistent, "exception": type(exc).__name__ if exc else None}
     run.case(case, nontrivial=exc is not None, tags=[name.split("/")[0], "exc=%s" % (type(exc).__name__ if exc else "none")])
     run.traces += 1
     if still_open:
@@ -301,6 +324,9 @@ def run(run):
             limit = n if run.tier == "thorough" else min(n, 400)
             for k in range(1, limit + 1):
                 attempt(run, name, call, k)
+            if not name.startswith("read"):
+                for k in range(1, limit + 1):
+                    attempt(run, name, call, k, persistent=True)
             run.dist["ops:" + name] = n
         run.exhaustive = True
     finally:
@@ -318,7 +344,7 @@ def replay(run, payload):
         c = payload["case"]
         for name, call, _ in shapes(tmp):
             if name == c["call"]:
-                attempt(run, name, call, c["fault_at"])
+                attempt(run, name, call, c["fault_at"], persistent=c.get("persistent", False))
     finally:
         shutil.rmtree(tmp, ignore_errors=True)
     return not run.failures
